@@ -58,8 +58,10 @@ def main() -> int:
             for tier in tiers:
                 for seed in seeds:
                     t0 = time.time()
-                    r = sh([os.path.join(VERIF, 'check'), p, '--tier', tier], env=dict(os.environ, VERIF_SEED=seed),
-                           cwd=VERIF)
+                    scratch = os.path.join(VERIF, '.cache', 'seeded-evidence')
+                    os.makedirs(scratch, exist_ok=True)
+                    r = sh([os.path.join(VERIF, 'check'), p, '--tier', tier],
+                           env=dict(os.environ, VERIF_SEED=seed, VERIF_EVIDENCE_DIR=scratch), cwd=VERIF)
                     viol = [l for l in r.stdout.split('\n') if l.startswith('VIOLATION')]
                     summary = [l for l in r.stdout.split('\n') if l.startswith(p + ' tier=')]
                     detail = [l.strip() for l in r.stderr.split('\n') if 'failing input' in l or 'correspondence broke' in l
